@@ -293,6 +293,15 @@ def gen_chain(g, S, length, family, t):
             types.append("GM"[int(g.integers(0, 2))] if family != "mp-heavy" else "M")
     if family == "mp-heavy" and types[0] == "G":
         types[0] = "M"
+    rp = None
+    if family == "repeat-proj":
+        # the same projective measurement (random, not axis aligned) applied twice, or followed by its coarse-graining /
+        # by the projective POVM of the same basis: impossible outcome combinations are numerically, not exactly, zero
+        types[-1] = "S" if length >= 3 else "M"
+        lo = length - 2 if length >= 3 else length - 1
+        types[lo] = "M"
+        types[lo - 1] = "M" if (lo - 1 > 0 or t % 3) else "P"
+        rp = {"lo": lo, "u": qobj.rand_unitary(g, S.d)}
     leaves = []
     used = []
     for i, ty in enumerate(types):
@@ -303,7 +312,13 @@ def gen_chain(g, S, length, family, t):
         elif ty == "M":
             m = next(x for x in ms if x not in used) if len(used) < 3 else ms[i % 5]
             used.append(m)
-            if family == "zero-prob" and S.d >= 2 and i == length - 2 and types[-1] == "S":
+            if rp is not None and i in (rp["lo"], rp["lo"] - 1):
+                u = rp["u"]
+                split = [[k] for k in range(S.d)]
+                if i == rp["lo"] - 1 and S.d > 2 and t % 2:
+                    split = [[0, 1]] + [[k] for k in range(2, S.d)]        # coarse-graining of the earlier measurement
+                leaves.append(mk_mprocess(g, S, len(split), groups=[[sum(np.outer(u[:, k], u[:, k].conj()) for k in idx)] for idx in split]))
+            elif family == "zero-prob" and S.d >= 2 and i == length - 2 and types[-1] == "S":
                 groups, u = projective_groups(g, S)
                 leaves.append(mk_mprocess(g, S, len(groups), groups=groups))
             elif family == "small-prob" and i == max(0, length - 2):
@@ -316,7 +331,11 @@ def gen_chain(g, S, length, family, t):
         elif ty == "P":
             m = next(x for x in ms if x not in used) if len(used) < 3 else 2
             used.append(m)
-            leaves.append(mk_povm(g, S, m, rank=[None, 1, None, 1][t % 4] if m >= S.d else None))
+            if rp is not None and i == rp["lo"] - 1:
+                u = rp["u"]
+                leaves.append(mk_povm(g, S, S.d, mats=[np.outer(u[:, k], u[:, k].conj()) for k in range(S.d)]))
+            else:
+                leaves.append(mk_povm(g, S, m, rank=[None, 1, None, 1][t % 4] if m >= S.d else None))
     if family == "zero-prob" and types[-1] == "S" and length >= 2 and types[-2] == "M":
         # pure input state = first basis vector of the projective measurement -> exact zero probabilities
         groups = leaves[-2]["sem"].items
@@ -352,7 +371,7 @@ def near_threshold(ps):
     return any(1e-14 < p < 1e-6 for p in ps)
 
 
-FAMILIES = ["generic", "state-end", "povm-start", "mp-heavy", "zero-prob", "state-end", "small-prob"]
+FAMILIES = ["generic", "state-end", "povm-start", "mp-heavy", "zero-prob", "state-end", "small-prob", "repeat-proj"]
 
 
 def chain_plan(ctx, volume=1):
@@ -785,6 +804,7 @@ def oracle(ctx, volume=1):
             ctx.violate("C06/compose_qoperations/fold/raises", f"{type(e).__name__}: {e}", dict(rep, replay_kind="chain", tree="fold"))
     oracle_generate(ctx, volume)
     oracle_truncation(ctx, volume)
+    oracle_kraus(ctx, volume)
     oracle_list_args(ctx)
 
 
@@ -843,8 +863,14 @@ def oracle_generate(ctx, volume=1):
     g = ctx.npgen(3)
     kinds = ["qubit", "qutrit"] if ctx.quick else ["qubit", "qutrit", "2qubit"]
     for kind in kinds:
-        S = get_sys(kind)
         for t in range((10 if ctx.quick else 50) * volume):
+            # every second POVM lives on a fresh composite system whose first computational-basis request is a
+            # read-only query in the other memory layout (results must not depend on earlier queries)
+            if t % 2 == 1 and kind != "2qubit":
+                S = Sys(kind)
+                S.c.comp_basis(mode=["column_major", "row_major"][(t // 2) % 2])
+            else:
+                S = get_sys(kind)
             name, mats = povm_families(g, S, t)
             m = len(mats)
             rho = qobj.rand_density(g, S.d)
@@ -929,6 +955,79 @@ def oracle_generate(ctx, volume=1):
                     if not np.allclose(got, ref, atol=1e-6):
                         ctx.violate(f"{sig}/post-state{sfx}", f"post-measurement state of outcome {x} differs from the mode-{mode} definition ({name})", rep)
                         break
+
+
+
+def structured_gates(g, S):
+    """textbook gates with exactly-zero matrix entries (as Kraus lists), next to random ones"""
+    d = S.d
+    out = []
+    if d == 2:
+        X = np.array([[0, 1], [1, 0]], dtype=complex)
+        Y = np.array([[0, -1j], [1j, 0]])
+        Z = np.diag([1, -1]).astype(complex)
+        H = np.array([[1, 1], [1, -1]], dtype=complex) / np.sqrt(2)
+        out += [("X", [X]), ("Y", [Y]), ("Z", [Z]), ("H", [H]),
+                ("pauli-channel", [np.sqrt(0.3) * X, np.sqrt(0.7) * Y]),
+                ("amplitude-damping", [np.array([[1, 0], [0, np.sqrt(0.6)]], dtype=complex), np.array([[0, np.sqrt(0.4)], [0, 0]], dtype=complex)])]
+    elif d == 3:
+        shift = np.roll(np.eye(3), 1, axis=0).astype(complex)
+        out += [("cyclic-shift", [shift]), ("shift-squared", [shift @ shift]),
+                ("dephasing", [np.diag([1, 0, 0]).astype(complex), np.diag([0, 1, 0]).astype(complex), np.diag([0, 0, 1]).astype(complex)])]
+    elif d == 4:
+        X = np.array([[0, 1], [1, 0]], dtype=complex)
+        cnot = np.eye(4)[[0, 1, 3, 2]].astype(complex)
+        out += [("X(x)U", [np.kron(X, qobj.rand_unitary(g, 2))]), ("CNOT", [cnot]), ("SWAP", [np.eye(4)[[0, 2, 1, 3]].astype(complex)])]
+    out += [("random-unitary", [qobj.rand_unitary(g, d)]), ("random-channel", qobj.rand_kraus(g, d, 1, 2)[0])]
+    return out
+
+
+def oracle_kraus(ctx, volume=1):
+    """"a gate acts on a state through its Kraus operators": the Kraus operators the objects report (`to_kraus_matrices`)
+    reproduce `compose(G, rho)` / the outcome branches of `compose(M, rho)` and are jointly trace preserving"""
+    g = ctx.npgen(9)
+    for kind in (["qubit", "qutrit"] if ctx.quick and volume == 1 else ["qubit", "qutrit", "2qubit"]):
+        S = get_sys(kind)
+        rho = qobj.rand_density(g, S.d)
+        st = State(S.c, S.vec(rho))
+        for name, ks in structured_gates(g, S):
+            rep = {"replay_kind": "kraus", "system": kind, "gate": name, "volume": volume}
+            ctx.case(("kraus", kind, name), sample={"op": "kraus action", "system": kind, "gate": name})
+            ctx.count(f"kraus {name}")
+            try:
+                G = Gate(S.c, S.hs(ks))
+                with np.errstate(all="ignore"):
+                    got = G.to_kraus_matrices()
+                out = compose_qoperations(G, st)
+            except Exception as e:  # noqa
+                ctx.violate("C06/kraus/Gate/raises", f"{type(e).__name__}: {e} for the gate {name} on {kind}", rep)
+                continue
+            got = [np.asarray(k) for k in got]
+            if not got or not all(np.all(np.isfinite(k)) for k in got):
+                ctx.violate("C06/kraus/Gate/not-finite", f"to_kraus_matrices() of the gate {name} ({kind}) is not finite", rep)
+                continue
+            act = sum(k @ rho @ k.conj().T for k in got)
+            tp = sum(k.conj().T @ k for k in got)
+            if not np.allclose(act, S.mat(out.vec), atol=1e-7) or not np.allclose(act, sum(k @ rho @ k.conj().T for k in ks), atol=1e-7):
+                ctx.violate("C06/kraus/Gate/action", f"sum_k K rho K^dagger with K = to_kraus_matrices() differs from compose(G, rho) for {name} ({kind})", rep)
+            elif not np.allclose(tp, np.eye(S.d), atol=1e-7):
+                ctx.violate("C06/kraus/Gate/tp", f"Kraus operators of {name} ({kind}) are not jointly trace preserving", rep)
+            # the same gate after a measurement: Kraus operators of every outcome branch
+            try:
+                M = _compose_qoperations(G, mk_mprocess(g, S, 2)["obj"])
+                ens = compose_qoperations(M, st)
+                for x in range(len(M.hss)):
+                    with np.errstate(all="ignore"):
+                        kx = [np.asarray(k) for k in M.to_kraus_matrices(x)]
+                    br = sum(k @ rho @ k.conj().T for k in kx) if kx else np.zeros((S.d, S.d))
+                    p = ens.prob_dist.ps[x]
+                    if not np.all(np.isfinite(br)) or abs(np.trace(br).real - p) > 1e-7 or \
+                            (p > 1e-5 and not np.allclose(br / p, S.mat(ens.states[x].vec), atol=1e-6)):
+                        ctx.violate("C06/kraus/MProcess/action", f"outcome {x}: Kraus operators of ({name} after a measurement) do not "
+                                    f"reproduce probability / post state ({kind})", rep)
+                        break
+            except Exception as e:  # noqa
+                ctx.violate("C06/kraus/MProcess/raises", f"{type(e).__name__}: {e} ({name} after a measurement, {kind})", rep)
 
 
 def oracle_truncation(ctx, volume=1):
